@@ -40,7 +40,7 @@ func verifOpenStaleSnapshotSetup(t *testing.T) (*streamer, *stream, []*stream) {
 	return s, st, snapshot
 }
 
-func TestVerifOpenStaleHeartbeatSnapshot(t *testing.T) {
+func TestVerifStaleHeartbeatSnapshot(t *testing.T) {
 	// (a) the event is acknowledged before the heartbeat reaches the stale entry
 	func() {
 		s, st, snapshot := verifOpenStaleSnapshotSetup(t)
